@@ -11,50 +11,80 @@ from collections import OrderedDict
 
 PROP = 'C15'
 LEAN_MODULES = ['Glom.Props.C15']
-FACT_FILES = ['RedFacts', 'RegFacts', 'ExcFacts', 'c15']
+FACT_FILES = ['RedFacts', 'ExcFacts', 'C13Facts', 'c13', 'c15']
 READY = True
 MANIFEST = dict(
-    text="Lean 4 theorems about a heap model (objects with addresses) of glom/reduction.py: for every closed heap, "
-         "target, sub-spec and every init that allocates, Fold's `ret = init(); for v in it: ret = op(ret, v)` loop with "
-         "in-place `+=`/`update` on the accumulator object equals the pure functools.reduce (List.foldlM) over the "
-         "ORIGINAL heap; Sum = integer sum; eager Flatten = chain.from_iterable; lazy = eager; flatten(levels=n) = "
-         "n-fold join; Merge = successive update with the last writer winning; no pre-existing object changes "
-         "(frame), every container result is a newly allocated object distinct from all inputs and from all "
-         "earlier results of the same spec object (fresh), and later evaluations leave earlier results untouched; a "
-         "target without an `iterate` handler is a FoldError (a GlomError).  Per-run facts obligation by `decide` on "
-         "tables regenerated from /repo (default iterate registrations, _AbstractIterable exclusions, the "
-         "except-clause of Fold.glomit, where init() is called, constructor defaults, the three _fold bodies, "
-         "flatten()'s spec construction); model tied to the code by differential execution through the compiled "
-         "Lean driver with identity-aware observations (input snapshot before/after, result-is-input, "
-         "result-is-earlier-result).",
+    text="Lean 4 theorems about a heap model (objects with addresses) of glom/reduction.py and grouping.target_iter: for "
+         "every closed heap, target, sub-spec, handler table and EVERY init / op meeting three stated laws (init "
+         "allocates; op reads its operands only, mutates at most the accumulator, returns an immediate or a container "
+         "of its own - proved for the catalogue +=, +, append, cons, update, first_wins, Count's lambda / int, float, "
+         "str, list, tuple, dict, OrderedDict, Acc, a copying factory), Fold's `ret = init(); for v in it: ret = "
+         "op(ret, v)` loop with in-place mutation of the accumulator object equals the pure functools.reduce "
+         "(List.foldlM) over the ORIGINAL heap; Sum = left-to-right addition (ints exact, floats one IEEE-754 "
+         "addition per step, Lean's Float model); eager Flatten = chain.from_iterable; lazy = eager value for value, "
+         "and the lazy object is a pull machine that fetches a source item when and only when a value is wanted "
+         "that the fetched ones cannot supply; flatten(levels=n, init) = n-fold join then Flatten(init), for every "
+         "init; Merge = successive update, last writer wins (first writer with first_wins); no pre-existing object "
+         "changes (frame), every container result is a newly allocated object distinct from all inputs and earlier "
+         "results (fresh), later evaluations leave earlier results untouched; a target without an `iterate` handler "
+         "is a FoldError (a GlomError), a raising handler a TypeError, a failing sub-spec comes first.  The target's "
+         "iteration is the handler registered AT THE TIME OF THE CALL: for every class hierarchy, registry and "
+         "interleaving of evaluations with register(cls, iterate=..., exact=...) calls, the code that exists "
+         "(get_handler with its memo, shared registry model of C13) shows, evaluation by evaluation, the reference "
+         "reduction over the memo-free answer of the tables of that moment.  Per-run facts obligation by `decide` on "
+         "tables regenerated from /repo (default iterate answers of the registry built from the extracted "
+         "registration sequences, the except-clauses of Fold.glomit and target_iter, that register() resets the "
+         "memo, where init() is called, constructor defaults, the three _fold bodies, flatten()'s spec construction); "
+         "model tied to the code by differential execution through the compiled Lean driver with identity-aware "
+         "observations (input snapshot before/after, result-is-input, result-is-earlier-result) and, for the lazy "
+         "objects, the count of what the source generator was asked for after every next().",
     note="trusted: Lean kernel + {propext, Classical.choice, Quot.sound}; extractor; harness/driver; what Python's "
-         "`+=`, `+`, dict.update, iter() and chain.from_iterable compute is modelled (pyOp/rawIter) and validated by "
-         "the correspondence only; float addends and float init excluded (CPython >= 3.12 sum() is compensated); "
-         "hypothesis `init allocates` (an init returning a shared object is the caller's aliasing); dict keys are "
-         "scalars; a generator object is consumed at most once per case; laziness of chain is collapsed to the "
-         "items it yields (error class only).",
-    technique='Lean 4 refinement proof (heap-mutating loop = pure reduce) + frame/freshness invariants + facts '
-              'obligation by decide + differential correspondence',
+         "`+=`, `+`, dict.update, iter(), chain.from_iterable and the harness's iterate handlers compute is modelled "
+         "(pyOp/rawIter/runHandler) and validated by the correspondence only; the class hierarchy of a case "
+         "(__mro__, isinstance, issubclass, auto-discovery) is Python's own answer, passed with the case as in C13; "
+         "which registered type is nearest is C13's subject (C15's reference uses the memo-free lookup of the shared "
+         "registry model); hypothesis `init allocates` (an init returning a shared object is the caller's aliasing); "
+         "dict keys are scalars; a generator object is consumed at most once per case; inner iterables of a lazy "
+         "chain are opened at once; ints mixed into float sums are below 2**53.",
+    technique='Lean 4 refinement proof (heap-mutating loop = pure reduce, generic in init/op) + frame/freshness invariants '
+              '+ memo-invisibility over registration histories (shared registry model) + pull-machine = reference for '
+              'lazy chains (well-founded) + facts obligation by decide + differential correspondence',
     ref='DESIGN.md §3 C15')
 RULE = ('type-directed: a prog (Fold/Sum/Count/Flatten eager+lazy/Merge/flatten(levels 0-4)/merge(), init in '
-        '{int,str,list,tuple,dict,OrderedDict,custom Acc(list) with __iadd__/update, omitted}, op in '
-        '{iadd,add,update,first_wins,omitted}) is drawn first, then targets whose element types fit it (ints/bools, '
-        'strs, lists, tuples, dicts, nested to the flatten depth; containers list/tuple/dict/OrderedDict/generator/Acc; '
-        'shared and self-containing sub-objects), optionally behind a T[...] sub-spec; 1-3 evaluations of the SAME '
-        'spec object on the same or different targets; a one-edit mutation stream plants a non-iterable / '
-        'wrong-typed / wrong-arity element at a random position, a non-iterable target (int, str, None, object), a '
-        'mismatched init, a missing sub-spec key, negative levels; a small stream uses a non-allocating init '
-        '(hypothesis violated on purpose: model and implementation must still agree). thorough additionally '
-        'enumerates every prog shape over 36 fixed targets. non-trivial = some evaluation iterates >= 2 items or '
-        'ends in an exception; distinct = distinct (heap, targets, prog).')
-TRUSTED = ['CPython semantics of +=, +, dict.update/OrderedDict.update, iter(), itertools.chain as modelled in '
-           'Glom/Model/C15.lean (pyOp, rawIter, updatePairs): validated by the correspondence, not verified',
+        '{int,float,str,list,tuple,dict,OrderedDict,custom Acc(list) with __iadd__/update, a copying factory over a heap '
+        'object, omitted}, op in {iadd,add,append,cons,update,first_wins,omitted}) is drawn first, then targets whose '
+        'element types fit it (ints/bools/floats incl. inf, nan, 1e16 and -0.0, strs, lists, tuples, dicts, nested to '
+        'the flatten depth; containers list/tuple/dict/OrderedDict/generator/Acc; shared and self-containing '
+        'sub-objects), optionally behind a T[...] sub-spec; 1-3 evaluations of the SAME spec object on the same or '
+        'different targets; 30 % of the cases are registration histories: targets are instances of harness classes '
+        '(Box/SubBox/SubSubBox iterable via __iter__, Bag/SubBag(list), Crate(Obj) not iterable) and 1-3 '
+        'register(cls, iterate=h, exact=e) calls (cls: class of a target / a class above or below it / a builtin / '
+        'object, _AbstractIterable; h in {reverse, tail, items-attribute, list, iter, raising, False, omitted}) are '
+        'placed before / between the evaluations, the same object evaluated again afterwards, on the module registry '
+        '(a deep copy swapped in per case) or a Glommer; 6 % are pull cases (lazy Flatten / flatten(levels=k, '
+        "init='lazy') over a counting generator, next() until StopIteration / TypeError); a one-edit mutation stream "
+        'plants a non-iterable / wrong-typed / wrong-arity element at a random position, a non-iterable target (int, '
+        'str, None, object), a mismatched init, a missing sub-spec key, negative levels; a small stream uses a '
+        'non-allocating init (hypothesis violated on purpose: model and implementation must still agree). thorough '
+        'additionally enumerates every prog shape over 36 fixed targets and every (instance class, registered class, '
+        'handler, exact, position, registry) over three progs. non-trivial = some evaluation iterates >= 2 items or '
+        'ends in an exception (pull: >= 2 pulls); distinct = distinct (heap, events, registry, prog).')
+TRUSTED = ['CPython semantics of +=, +, dict.update/OrderedDict.update, iter(), itertools.chain and of the harness\'s '
+           'iterate handlers as modelled in Glom/Model/C15.lean (pyOp, rawIter, runHandler, updatePairs) and '
+           'Glom/Model/C15Lazy.lean (refill/next): validated by the correspondence, not verified',
+           'the class hierarchy tables of a case (__mro__, isinstance, issubclass, auto-discovery outcomes) are '
+           'computed by Python introspection in the harness (as in C13)',
+           'Lean core\'s Float model (Float.ofBits/add/toBits reduce in the kernel) is IEEE-754 binary64 addition',
            'generators are modelled as immutable sequences; each generator object is consumed at most once per case']
-ASSUMPTIONS = ['float addends / float init are excluded from value comparison (CPython >= 3.12 sum() uses compensated '
-               'summation, DESIGN 6.5); ints, bools, strings and sequences are compared exactly',
+ASSUMPTIONS = ['floats are compared exactly (bit patterns): glom adds left to right with one IEEE-754 addition per '
+               'step, i.e. functools.reduce(operator.add), NOT the compensated builtin sum() of CPython >= 3.12 '
+               '(DESIGN 6.5, narrowed); ints mixed into float sums are below 2**53',
                'hypothesis "init allocates": an init callable returning a pre-existing object is outside the '
                'frame/freshness claims (c15_shared_init_counterexample)',
-               'default registry (C13 covers registration); dict keys are scalars',
+               'which registered type is nearest for an unregistered class is C13\'s property; C15 requires that the '
+               'answer is that of the tables at the time of the call (no memo); dict keys are scalars',
+               'flatten(levels >= 2) on a registry where itertools.chain objects are served by a handler other than '
+               'iter is outside the reference (the driver evaluates the model only)',
                'identity of immutable results (tuple, str, int) is not observed: CPython returns `t` itself for `() + t`']
 
 
@@ -120,9 +150,10 @@ HANDLERS = {
     'h:aslist': lambda x: list(x),
     'h:items': lambda x: iter(x.items),
     'h:raise': _raise_handler,
+    'getattr': getattr,
 }
 for _n, _f in HANDLERS.items():
-    if _n != 'iter':
+    if _n not in ('iter', 'getattr'):
         _f.tag = _n
 
 
@@ -417,9 +448,57 @@ def class_of(name):
             'chain': itertools.chain}[name]
 
 
+def run_pull(case):
+    """a PULL case: evaluate a lazy Flatten on a generator that counts what it is asked for, then pull
+    the result value by value; observation = the count after creation and after every `next()`"""
+    from glom import core
+    heap = case['heap']
+    objs, dv = decode(heap)
+    ids = {}
+    for a, o in enumerate(objs):
+        ids.setdefault(id(o), a)
+    t = targets_of(case)[0]
+    items = list(dv(t))                     # the generator decode() built: its items, as objects
+    log = []
+
+    def source():
+        for x in items:
+            log.append(1)
+            yield x
+    saved = core._DEFAULT_SCOPE[core.TargetRegistry]
+    mine = copy.deepcopy(saved)
+    mine._type_cache = {}
+    core._DEFAULT_SCOPE[core.TargetRegistry] = mine
+    out = dict(case)
+    try:
+        try:
+            r = make_callable(case['prog'], dv)(source())
+        except Exception as e:
+            out['impl'] = {'raised': enc_err(e)['err'], 'hier': hier_tables()}
+            return out
+        created = len(log)
+        pulls = []
+        for _ in range(20000):
+            try:
+                v = next(r)
+            except StopIteration:
+                pulls.append({'stop': len(log)})
+                break
+            except Exception as e:
+                pulls.append({'error': enc_err(e)['err'], 'f': len(log)})
+                break
+            pulls.append({'item': enc_val(v, ids), 'f': len(log)})
+    finally:
+        core._DEFAULT_SCOPE[core.TargetRegistry] = saved
+    out['impl'] = {'created': created, 'pulls': pulls, 'hier': hier_tables()}
+    return out
+
+
 def run_impl(case):
     import glom
     from glom import core
+    if case.get('pull'):
+        return run_pull(case)
     heap = case['heap']
     objs, dv = decode(heap)
     ids = {}
@@ -785,6 +864,33 @@ def gen_case(rng, tier, kinds=None, regs=None):
     return normalise({'heap': hp.heap, 'events': events, 'registry': registry, 'prog': prog}, rng)
 
 
+def gen_pull_case(rng):
+    """laziness: a lazy Flatten / flatten(levels=k, init='lazy') over a GENERATOR nested k levels deep;
+    a one-edit mutation plants a value that is not iterable somewhere on the way down"""
+    hp = H()
+    k = rng.choice([1, 1, 1, 2, 2, 3])
+    t = gen_seq_depth(rng, hp, rng.choice(['any', 'int', 'str']), k)
+    if rng.random() < 0.5:
+        # more source items, among them empty ones (fetched on the way to the next value)
+        cell = hp.heap[t['r']]
+        for _ in range(rng.choice([1, 2, 3])):
+            extra = gen_seq_depth(rng, hp, 'any', k - 1) if rng.random() < 0.6 else container(hp, 'list', [])
+            cell['v'].insert(rng.randint(0, len(cell['v'])), extra)
+    if rng.random() < 0.3:
+        cells = [c for c in hp.heap if c['k'] in ('list', 'tuple')]
+        c = rng.choice(cells)
+        c['v'].insert(rng.randint(0, len(c['v'])), bad_element(rng, hp) if rng.random() < 0.6 else jval(5))
+    hp.heap[t['r']]['k'], hp.heap[t['r']]['c'] = 'tuple', 'generator'
+    if k == 1 and rng.random() < 0.5:
+        prog = {'kind': 'flatten', 'sub': [], 'init': 'lazy'}
+    else:
+        prog = {'kind': 'flatten_fn', 'sub': [], 'init': 'lazy', 'levels': k}
+    case = normalise({'heap': hp.heap, 'events': [{'t': t}], 'registry': 'module', 'prog': prog, 'pull': True})
+    hp.heap[t['r']]['c'] = 'generator'
+    return case
+
+
+PULL_SHARE = 0.06
 REG_SHARE = 0.3
 REG_HANDLERS = ['h:rev', 'h:rev', 'h:tail', 'h:items', 'h:items', 'h:aslist', 'iter', 'h:raise', None, 'omit']
 RELATED = {'Box': ['SubBox', 'SubSubBox', 'object'], 'SubBox': ['Box', 'SubSubBox'], 'SubSubBox': ['SubBox', 'Box'],
@@ -806,7 +912,10 @@ def gen_reg(rng, tclasses, prog):
     else:
         cls = rng.choice(['object', '_AbstractIterable', 'chain'])
     h = rng.choice(REG_HANDLERS)
-    return {'cls': cls, 'exact': rng.random() < 0.5, 'kw': [] if h == 'omit' else [['iterate', h]]}
+    kw = [] if h == 'omit' else [['iterate', h]]
+    if rng.random() < 0.1:
+        kw = kw + [['get', 'getattr']]      # another op registered alongside: the memo is reset all the same
+    return {'cls': cls, 'exact': rng.random() < 0.5, 'kw': kw}
 
 
 def degenerate(hp, v):
@@ -994,7 +1103,10 @@ def normalise(case, rng=None):
 def generate(rng, tier, scale, kinds=None, regs=None, **focus):
     n = (1800 if tier == "quick" else 60000) * scale
     for _ in range(n):
-        yield gen_case(rng, tier, kinds, regs)
+        if not kinds and regs is None and rng.random() < PULL_SHARE:
+            yield gen_pull_case(rng)
+        else:
+            yield gen_case(rng, tier, kinds, regs)
     if tier == 'thorough' and not kinds:
         yield from exhaustive()
 
@@ -1095,12 +1207,17 @@ def corpus():
 
 
 def key(case):
-    return {'heap': case['heap'], 'events': events_of(case), 'registry': case.get('registry', 'module'),
-            'prog': case['prog']}
+    k = {'heap': case['heap'], 'events': events_of(case), 'registry': case.get('registry', 'module'),
+         'prog': case['prog']}
+    if case.get('pull'):
+        k['pull'] = True
+    return k
 
 
 def nontrivial(case, verdict):
     impl = case.get('impl') or {}
+    if case.get('pull'):
+        return len(impl.get('pulls', [])) >= 2
     if any('err' in r for r in impl.get('results', [])):
         return True
     heap = case['heap']
